@@ -18,7 +18,9 @@ RULE = ("9 templates (flat, year dir, y/m/d, y/m/d/h, fixed dir, discrete, "
         "single-file fileset x 3 windows x populations (whole pool; every "
         "subset of size <=3 of the 7-9 file pool; quick: size <=2 in the year-end window, singles in the others) x "
         "every lattice instant and the instant +- one name-resolution unit x "
-        "{no filter, white, black (user-placeholder template), each file "
+        "{no filter, white, black (user-placeholder template; also on a "
+        "FileSet object that answered a query with other filter values "
+        "before), each file "
         "excluded by name, for each file a period excluded that lies "
         "inside its coverage after its start}; find_closest and fileset[t] / fileset[t, "
         "filters]. Non-trivial = the neighbourhood holds >= 2 candidate "
@@ -84,6 +86,20 @@ def option_sets(tname, files, single=False):
         out += [("white=A", {"sat": "A"}, {}, dict(white=["A"])),
                 ("white=B", {"sat": "B"}, {}, dict(white=["B"])),
                 ("black=A", {"!sat": "A"}, {}, dict(black=["A"]))]
+        # the same questions put to a FileSet object that has answered
+        # another one before (`_primed`: the filters of the earlier calls;
+        # what they cached must not leak into this answer)
+        out += [("white=B after white=A", {"sat": "B"},
+                 dict(_primed=[{"sat": "A"}]), dict(white=["B"])),
+                ("white=A after white=[A,B]", {"sat": "A"},
+                 dict(_primed=[{"sat": ["A", "B"]}]), dict(white=["A"])),
+                ("none after white=A", None,
+                 dict(_primed=[{"sat": "A"}]), {}),
+                ("white=A after none", {"sat": "A"},
+                 dict(_primed=[None]), dict(white=["A"])),
+                ("black=A after black=B, white=A", {"!sat": "A"},
+                 dict(_primed=[{"!sat": "B"}, {"sat": "A"}]),
+                 dict(black=["A"]))]
     off = 7 * (dt.timedelta(seconds=1) if tname == "ymdh" else L.MIN)
     for k, f in enumerate(files):
         out.append(("exclude#%d" % k, None, dict(exclude=[f.path]),
@@ -126,9 +142,16 @@ def check_population(res, root, tname, files, instants, casebase):
             nt = len(W) >= 2 or not any(f.t0 <= t <= f.t1 for f in W)
             for via in ("find_closest", "getitem"):
                 res.case(nontrivial=nt)
+                kw = dict(fs_kw)
+                primed = kw.pop("_primed", ())
                 fs = L.make_fileset(root, tname,
                                     handler=FileHandler(reader=reader),
-                                    **fs_kw)
+                                    **kw)
+                for earlier in primed:
+                    try:
+                        ask(fs, t, earlier, via)
+                    except Exception:
+                        pass          # judged where it is the question
                 try:
                     got = ask(fs, t, filters, via)
                     err = None
